@@ -416,6 +416,23 @@ func runChaos(r *monitor.Run, p Params) {
 		wg.Add(1)
 		go c.apiCaller(i, &wg)
 	}
+	// the retained store under concurrent writers and readers (store, clear, match, iterate)
+	for i := 0; i < 3; i++ {
+		wg.Add(1)
+		go func(i int) {
+			defer wg.Done()
+			rs := b.Srv.RetainedService()
+			for n := 0; n < 400 && atomic.LoadInt32(&c.stopped) == 0; n++ {
+				t := fmt.Sprintf("ret/%d/%d", i, n%5)
+				rs.AddOrReplace(&gmqtt.Message{Topic: t, Payload: []byte("r"), Retained: true})
+				_ = rs.GetMatchedMessages("ret/#")
+				_ = rs.GetRetainedMessage(t)
+				rs.Iterate(func(*gmqtt.Message) bool { return true })
+				rs.Remove(t)
+			}
+			c.op("retained_hammer")
+		}(i)
+	}
 	var swg sync.WaitGroup
 	for i := 0; i < p.Stalled; i++ {
 		swg.Add(1)
